@@ -475,6 +475,10 @@ class Script:
                 except Exception:  # noqa
                     pass
                 self.d.server = None
+            # (the way the server is configured is part of the input: a server which stops on a None request, like the one
+            # `python -m pyworkers.remote_server` runs)
+            self.d.server_kwargs = {'close_on_none': True} if op.get('close_on_none') else {}
+            self.d.recorded = {}
             os.environ['PWV_SPEC'] = self.d.spec_path
             st, val = self.raw(lambda: self.d.get_server().addr, 20)
             return {'ret': _rep(val)} if st == 'ret' else {st: val}
